@@ -25,6 +25,8 @@ HCL = {
     "syn_0b_eof": "pc = 0;\nStat = 0b",
     # a rejected file whose diagnostics name non-ASCII identifiers
     "rej_uni": "pc = 0; Stat = STAT_HLT;\n\u00e9tat = 1;\nregister \u00e9 { k : 8 = 0; }\nwire w:8; w = \u65e5\u672c + 1;\n",
+    # a byte order mark is not blank space: rejected at line 1 (and the lines after it keep their numbers)
+    "syn_bom": "\ufeffpc = 0;\nStat = STAT_AOK;\nwire w:8;\nw = y;\n",
 }
 # files that are not UTF-8 or use bare carriage returns as line ends: read lossily / CR ends a line and a line comment
 HCL_BYTES = {
@@ -63,6 +65,12 @@ YO_BYTES = {
 BAD_YO = ["longbad%d%s" % (k, n) for k in range(60, 67) for n in "abc"] + ["bad", "empty", "empty", "plusaddr", "plusbyte", "minusaddr", "nonascii", "oddhex", "nocolon", "latin1_later", "latin1_mid"]
 # a line without any '|' is listing text (labels, directives) and is skipped: this loads (an image without bytes)
 ODD_YO = ["shortline"]
+# valid images whose first bytes are an instruction with function code 0, 6, 7, 8 or 15 of cmovXX / OPq / jXX (the last defined
+# code, the first undefined ones: those have no mnemonic): the line printed for each cycle disassembles them
+OP_YO = {"op%x%x" % (ic, fn): "0x000: %-20s |   first instruction %x%x\n" % ("%x%x" % (ic, fn) + ("01" if ic != 7 else "0000000000000000"), ic, fn)
+         for ic in (2, 6, 7) for fn in (0, 6, 7, 8, 15)}
+YO.update(OP_YO)
+
 
 OPTS = [("-c", "check"), ("--check", "check"), ("-d", "debug"), ("-q", "quiet"), ("--quiet", "quiet"), ("-t", "testing"),
         ("-h", "help"), ("--help", "help"), ("--ungroup-debug-wires", "ungroup"), ("--trace-assignments", "trace"),
@@ -141,65 +149,249 @@ def classify(rc, out, err):
     return kind, cycles, banner
 
 
+# ---------------------------------------------------------------------------------------------------------------
+# The option table of main.rs (short, long) and a plain re-implementation of what getopts 0.2 does with it
+# (FloatingFrees, long_only = false, flags only).  Used for the bookkeeping of the generator: the fields of the
+# request that describe what the argument vector means (`opterr`, `help`, `nfree`, ...) are computed by `py_getopts`
+# from the argument strings, and cross-checked against the intent the vector was assembled from (`intent_of`).
+FLAGS = [("c", "check"), ("d", "debug"), ("q", "quiet"), ("t", "testing"), ("h", "help"), ("i", "interactive"),
+         ("", "ungroup-debug-wires"), ("", "trace-assignments"), ("", "version")]
+SHORT2LONG = {s: l for s, l in FLAGS if s}
+LONGS = [l for _, l in FLAGS]
+
+
+def py_getopts(args):
+    """-> (message or None, set of long names given, free arguments)"""
+    counts = {l: 0 for l in LONGS}
+    free = []
+    i = 0
+    while i < len(args):
+        cur = args[i]
+        i += 1
+        raw = cur.encode("utf-8")
+        if not (raw[:1] == b"-" and len(raw) > 1):
+            free.append(cur)
+        elif cur == "--":
+            free.extend(args[i:])
+            break
+        elif raw[1:2] == b"-":
+            tail = cur[2:]
+            name, eq, _value = tail.partition("=")
+            if len(name.encode("utf-8")) == 1:
+                canon = SHORT2LONG.get(name)
+            else:
+                canon = name if name in LONGS else None
+            if canon is None:
+                return "Unrecognized option: '%s'" % name, None, None
+            if eq:
+                return "Option '%s' does not take an argument" % name, None, None
+            counts[canon] += 1
+        else:
+            for ch in cur[1:]:
+                canon = SHORT2LONG.get(ch)
+                if canon is None:
+                    return "Unrecognized option: '%s'" % ch, None, None
+                counts[canon] += 1
+    for l in LONGS:
+        if counts[l] > 1:
+            return "Option '%s' given more than once" % l, None, None
+    return None, {l for l in LONGS if counts[l]}, free
+
+
+def hexatom(s):
+    return "x" + s.encode("utf-8").hex()
+
+
+def intent_of(pieces):
+    """pieces: (text, kind, effect) with kind in opt/free/term; the meaning by construction, without looking at the text"""
+    bad = False
+    given = []
+    free = []
+    ended = False
+    for text, kind, effect in pieces:
+        if ended or kind == "free":
+            free.append(text)
+        elif kind == "term":
+            ended = True
+        elif effect == "BAD":
+            bad = True
+            break
+        else:
+            given.extend(effect)
+    if bad or len(set(given)) != len(given):
+        return True, None, None
+    return False, set(given), free
+
+
+SHORTS = "cdqthi"
+BAD_OPTS = ["--bogus", "-x", "--é", "-é", "---", "--=", "--=x", "--versio", "--Check", "--CHECK", "-C", "--check ",
+            "--ungroup_debug_wires", "--no-such=1", "-c=1", "--x", "--日本", "-qé", "-1", "--che", "--ch", "--v",
+            "--check=1", "--check=", "--c=1", "--c=", "--help=", "--version=1", "--quiet=yes", "--q=", "--trace-assignments=on",
+            "-q-", "--qé", "-−q"]
+
+
+def opt_piece(rnd, quietish, used):
+    """one option argument with what it means: (text, 'opt', list of long names | 'BAD')"""
+    r = rnd.random()
+    if r < 0.07:
+        return (rnd.choice(BAD_OPTS), "opt", "BAD")
+    weights = {"check": 3, "debug": 2, "quiet": 4 if quietish else 2, "testing": 2, "help": 1, "interactive": 1,
+               "ungroup-debug-wires": 1, "trace-assignments": 1, "version": 1}
+    names = [n for n, w in weights.items() for _ in range(w)]
+    fresh = [n for n in names if n not in used]
+    long_ = rnd.choice(fresh if fresh and rnd.random() < 0.85 else names)
+    short = {l: s for s, l in FLAGS}[long_]
+    r = rnd.random()
+    if r < 0.22 and short:
+        # a cluster of 2 or 3 short options (possibly repeating a letter)
+        others = [c for c in SHORTS if c != short and c != "h" and (SHORT2LONG[c] not in used or rnd.random() < 0.15)] or ["d", "t"]
+        letters = [short] + rnd.sample(others, min(len(others), rnd.choice([1, 1, 2])))
+        if rnd.random() < 0.12:
+            letters.append(rnd.choice(letters))
+        rnd.shuffle(letters)
+        return ("-" + "".join(letters), "opt", [SHORT2LONG[c] for c in letters])
+    if r < 0.50 and short:
+        return ("-" + short, "opt", [long_])
+    if r < 0.62 and short:
+        return ("--" + short, "opt", [long_])       # a one-letter name after `--` is looked up as a short name
+    return ("--" + long_, "opt", [long_])
+
+
+HCL_EXTRA_NAMES = {"été.hcl": "ok_halt", "日本.hcl": "rej"}
+YO_EXTRA_NAMES = {"été.yo": "good", "日本.yo": "bad"}
+
+
 def generate(binary, seed, count, outfile, workdir):
     rnd = random.Random(seed)
     prepare(workdir)
+    for n, src in HCL_EXTRA_NAMES.items():
+        shutil.copy(os.path.join(workdir, src + ".hcl"), os.path.join(workdir, n))
+    for n, src in YO_EXTRA_NAMES.items():
+        shutil.copy(os.path.join(workdir, src + ".yo"), os.path.join(workdir, n))
     with open(outfile, "w", encoding="utf-8") as f:
         for _ in range(count):
-            # options
-            nopt = rnd.choice([0, 0, 1, 1, 2, 3])
-            chosen = [rnd.choice(OPTS) for _ in range(nopt)]
-            if rnd.random() < 0.6 and not any(o[1] in ("help", "version", "check") for o in chosen):
-                chosen.append(("-q", "quiet"))     # keep most runs quiet (less output)
-            names = [o[1] for o in chosen]
-            canonical = {}
-            dup = False
-            for o, n in chosen:
-                if n != "BAD":
-                    if n in canonical:
-                        dup = True
-                    canonical[n] = True
             # positionals
-            hcl = rnd.choice(["ok_halt", "ok_halt", "ok_run", "ok_err", "div", "rej", "syn", "missing", "dir", "syn_nbsp", "syn_wide", "syn_eof", "rej_uni", "ok_latin1", "ok_cr", "ok_big", "syn_0x_eof", "syn_0b_eof"])
-            traw = rnd.choice(TIMEOUTS)
-            if hcl == "ok_run" and traw in ("4294967295",):
+            hcl = rnd.choice(["ok_halt", "ok_halt", "ok_run", "ok_err", "div", "rej", "syn", "missing", "dir", "syn_nbsp", "syn_wide", "syn_eof", "rej_uni", "ok_latin1", "ok_cr", "ok_big", "syn_0x_eof", "syn_0b_eof", "syn_bom"])
+            traw = rnd.choice(TIMEOUTS + ["３", "٣", "3 ", "+", "+0", "007", "00000000004294967295", "-0", "++3"])
+            if hcl == "ok_run" and traw in ("4294967295", "00000000004294967295"):
                 hcl = "ok_halt"        # a non-halting program with a 2^32-1 budget would run for hours
-            yo = rnd.choice(["good", "good", "good", "good", rnd.choice(BAD_YO), rnd.choice(BAD_YO), rnd.choice(BAD_YO), "empty", rnd.choice(ODD_YO), "missing", "image.txt", "dir"])
+            yo = rnd.choice(["good", "good", "good", "good", rnd.choice(BAD_YO), rnd.choice(BAD_YO), rnd.choice(BAD_YO), "empty", rnd.choice(ODD_YO), rnd.choice(sorted(OP_YO)), rnd.choice(sorted(OP_YO)), "missing", "image.txt", "dir"])
             nfree = rnd.choice([0, 1, 1, 2, 2, 2, 3, 3, 3, 4])
-            free = []
-            if nfree >= 1:
-                free.append(hcl + ".hcl")
-            if nfree >= 2:
-                free.append(yo if yo == "image.txt" else yo + ".yo")
-            if nfree >= 3:
-                free.append(traw)
-            if nfree >= 4:
-                free.append("extra")
-            argv = [o[0] for o in chosen]
-            pos = rnd.randrange(len(argv) + 1)
-            args = argv[:pos] + free + argv[pos:] if rnd.random() < 0.3 else argv + free
-            # a positional that looks like an option is an option error for getopts
-            opterr = ("BAD" in names) or dup or any(a.startswith("-") and len(a) > 1 for a in free)
-            timeout = None
-            if nfree >= 3 and re.fullmatch(r"\+?[0-9]+", traw) and int(traw) < 2 ** 32:
-                timeout = int(traw)
-            if nfree == 2:
-                timeout = 9999
-            # big timeouts without -q print megabytes: force quiet
-            if timeout is not None and timeout > 50 and "quiet" not in canonical and hcl in ("ok_run", "div"):
-                args = ["-q"] + args
-                if "quiet" in canonical:
-                    opterr = True
-                canonical["quiet"] = True
-            hclstate = "rejected" if hcl.startswith(("rej", "syn")) else {"missing": "unreadable", "dir": "unreadable"}.get(hcl, "accepted")
-            yostate = {"good": "loaded", "image.txt": "loaded", "shortline": "loaded", "missing": "unopenable",
-                       "dir": "unloadable"}.get(yo, "unloadable")
+            hclname = hcl + ".hcl"
+            yoname = yo if yo == "image.txt" else yo + ".yo"
+            if rnd.random() < 0.06:
+                hclname = rnd.choice(list(HCL_EXTRA_NAMES))
+            if rnd.random() < 0.06:
+                yoname = rnd.choice(list(YO_EXTRA_NAMES))
+            free = [hclname, yoname, traw, "extra"][:nfree]
+            # a negative number in the place of the timeout is an (unknown) option for getopts
+            frees = [(x, "opt", "BAD") if x in ("-1", "-0") else (x, "free", None) for x in free]
+            # a lone `-` is a free argument: it shifts the positionals
+            if rnd.random() < 0.05:
+                frees.insert(rnd.randrange(len(frees) + 1), ("-", "free", None))
+            # options
+            nopt = rnd.choice([0, 0, 1, 1, 1, 2, 2, 3, 4])
+            opts = []
+            used = set()
+            for _ in range(nopt):
+                o = opt_piece(rnd, True, used)
+                opts.append(o)
+                if o[2] != "BAD":
+                    used.update(o[2])
+            if rnd.random() < 0.5 and not any(e != "BAD" and set(e) & {"help", "version", "check", "quiet"} for _, _, e in opts):
+                opts.append(("-q", "opt", ["quiet"]))     # keep most runs quiet (less output)
+            # layout: options first, options last, or interleaved
+            r = rnd.random()
+            if r < 0.40:
+                pieces = opts + frees
+            elif r < 0.55:
+                pieces = frees + opts
+            else:
+                pieces = list(frees)
+                for o in opts:
+                    pieces.insert(rnd.randrange(len(pieces) + 1), o)
+            # `--`: everything after it is a free argument, options included
+            if rnd.random() < 0.22:
+                pieces.insert(rnd.randrange(len(pieces) + 1), ("--", "term", None))
+                if rnd.random() < 0.15:
+                    pieces.insert(rnd.randrange(len(pieces) + 1), ("--", "term", None))
+
+            def meaning(pieces):
+                args = [p[0] for p in pieces]
+                msg, given, fr = py_getopts(args)
+                ibad, igiven, ifree = intent_of(pieces)
+                mismatch = (msg is not None) != ibad or (msg is None and (given != igiven or fr != ifree))
+                return args, msg, given, fr, mismatch
+
+            args, msg, given, fr, mismatch = meaning(pieces)
+            # an argument that is not valid UTF-8 (a file name in Latin-1, a stray byte): getopts converts every argument
+            # first and reports the first one that is not UTF-8 as an unrecognised option, wherever it stands (also after `--`)
+            rawargs = None
+            if rnd.random() < 0.04:
+                badarg = rnd.choice([b"caf\xe9.hcl", b"\xff", b"-q\xff", b"--\xff", b"ok_halt.hcl\xc3", b"image\xe9.yo", b"\xe9\xe8", b"--check\x80", b"\xf0\x9f"])
+                rawargs = [a.encode("utf-8") for a in args]
+                rawargs.insert(rnd.randrange(len(rawargs) + 1), badarg)
+                msg = "not-utf8"
+
+            def fields(given, fr):
+                """what the free arguments name, from the names alone"""
+                h = fr[0] if len(fr) >= 1 else None
+                y = fr[1] if len(fr) >= 2 else None
+                t = fr[2] if len(fr) >= 3 else None
+                hbase = None
+                if h is not None:
+                    if h in HCL_EXTRA_NAMES:
+                        hbase = HCL_EXTRA_NAMES[h]
+                    elif h.endswith(".hcl") and (h[:-4] in HCL or h[:-4] in HCL_BYTES or h[:-4] in ("missing", "dir")):
+                        hbase = h[:-4]
+                    else:
+                        # not a file the generator made: must not exist
+                        assert not os.path.lexists(os.path.join(workdir, h)) or h == "", h
+                        hbase = "missing"
+                hclstate = "unreadable"
+                if hbase is not None:
+                    hclstate = "rejected" if hbase.startswith(("rej", "syn")) else {"missing": "unreadable", "dir": "unreadable"}.get(hbase, "accepted")
+                ybase = None
+                if y is not None:
+                    if y in YO_EXTRA_NAMES:
+                        ybase = YO_EXTRA_NAMES[y]
+                    elif y == "image.txt":
+                        ybase = "image.txt"
+                    elif y.endswith(".yo") and (y[:-3] in YO or y[:-3] in YO_BYTES or y[:-3] in ("missing", "dir")):
+                        ybase = y[:-3]
+                    else:
+                        assert not y.endswith(".yo") or not os.path.lexists(os.path.join(workdir, y)), y
+                        ybase = "missing"
+                yostate = "unopenable"
+                if ybase is not None:
+                    yostate = {"good": "loaded", "image.txt": "loaded", "shortline": "loaded", "missing": "unopenable",
+                               "dir": "unloadable"}.get(ybase, "loaded" if ybase in OP_YO else "unloadable")
+                timeout = None
+                tvalid = False
+                if t is not None and re.fullmatch(r"\+?[0-9]+", t, re.ASCII) and int(t) < 2 ** 32:
+                    timeout = int(t)
+                    tvalid = True
+                if len(fr) == 2:
+                    timeout = 9999
+                return h, y, t, hbase, hclstate, yostate, timeout, tvalid
+
+            if msg is None:
+                h, y, t, hbase, hclstate, yostate, timeout, tvalid = fields(given, fr)
+                # big timeouts without -q print megabytes: force quiet
+                if timeout is not None and timeout > 50 and "quiet" not in given and hbase in ("ok_run", "div"):
+                    pieces = [("-q", "opt", ["quiet"])] + pieces
+                    args, msg, given, fr, mismatch = meaning(pieces)
+                    h, y, t, hbase, hclstate, yostate, timeout, tvalid = fields(given, fr)
+            if msg is not None:
+                given, fr = set(), []
+                h = y = t = hbase = None
+                hclstate, yostate, timeout, tvalid = "unreadable", "unopenable", None, False
             run = "finished"
             cycles = "-"
             banner = "-"
             if hclstate == "accepted" and timeout is not None:
-                stop, ban = STOP.get(hcl, (None, None))
-                ab = ABORT_AT.get(hcl)
+                stop, ban = STOP.get(hbase, (None, None))
+                ab = ABORT_AT.get(hbase)
                 if ab is not None and timeout >= ab:
                     run = "aborted"
                 else:
@@ -211,12 +403,15 @@ def generate(binary, seed, count, outfile, workdir):
                         banner = "timedout"   # C06: halted if the last Stat is HLT, otherwise timed out when the budget is used up
                     if banner == "halted" and cycles == timeout:
                         cycles = "-"          # halted exactly at the timeout: the report has no 'Cycles run:' line (see C06)
-            p = subprocess.run([binary] + args, cwd=workdir, stdin=subprocess.DEVNULL, stdout=subprocess.PIPE,
+            p = subprocess.run(([binary.encode("utf-8")] + rawargs) if rawargs is not None else ([binary] + args), cwd=workdir, stdin=subprocess.DEVNULL, stdout=subprocess.PIPE,
                                stderr=subprocess.PIPE, timeout=120)
             out = p.stdout.decode("utf-8", "replace")
             err = p.stderr.decode("utf-8", "replace")
             kind, ocyc, oban = classify(p.returncode, out, err)
             impl = "exit=%d out=%s" % (p.returncode, kind)
+            if kind == "optionMessage":
+                # the whole of standard error is the one line of getopts
+                impl += " msg=" + hexatom(err[:-1] if err.endswith("\n") else err + "<no newline>")
             if kind == "finalState":
                 impl += " cycles=%s banner=%s" % (ocyc, oban)
             # consistency of the output channels with the status (C19): recorded as part of the observed result
@@ -226,9 +421,20 @@ def generate(binary, seed, count, outfile, workdir):
                 impl += " SILENT-FAILURE"
             if p.returncode not in (0, 1):
                 impl += " BAD-STATUS"
-            req = ("(cli (opterr %d) (help %d) (version %d) (check %d) (nfree %d) (hcl %s) (suffix %d) (yo %s) (traw %s) (run %s) "
-                   "(cycles %s) (banner %s) (args %s))") % (
-                1 if opterr else 0, 1 if "help" in canonical else 0, 1 if "version" in canonical else 0,
-                1 if "check" in canonical else 0, nfree, hclstate, 1 if (nfree >= 2 and free[1].endswith(".yo")) else 0, yostate,
-                esc(traw) if nfree >= 3 and traw != "" else "␀", run, cycles, banner, esc(" ".join(args)))
+            # "status 1 ... and no final state": a failing invocation prints no machine state beyond the per-cycle states of
+            # the cycles it completed before aborting (none at all under -q)
+            if p.returncode != 0:
+                nstates = len([l for l in out.splitlines() if l.startswith("+") and ("in state" in l or "between cycles" in l or "timed out" in l)])
+                allowed = ABORT_AT.get(hbase, 0) if (run == "aborted" and "quiet" not in given) else 0
+                if nstates > allowed:
+                    impl += " STATE-ON-FAILURE"
+            if mismatch:
+                impl += " GENERATOR-BOOKKEEPING-MISMATCH"
+            req = ("(cli (opterr %d) (help %d) (version %d) (check %d) (nfree %d) (hcl %s) (suffix %d) (yo %s) (traw %s) (tvalid %d) (run %s) "
+                   "(cycles %s) (banner %s) (argv%s) (args %s))") % (
+                1 if msg is not None else 0, 1 if "help" in given else 0, 1 if "version" in given else 0,
+                1 if "check" in given else 0, len(fr), hclstate, 1 if (y is not None and y.endswith(".yo")) else 0, yostate,
+                esc(t) if t not in (None, "") else "␀", 1 if tvalid else 0, run, cycles, banner,
+                "".join(" " + hexatom(a) for a in args) if rawargs is None else "".join(" x" + a.hex() for a in rawargs),
+                esc(" ".join(args)) if rawargs is None else esc(" ".join(a.decode("utf-8", "replace") for a in rawargs)))
             f.write(req + "\t" + impl + "\n")
